@@ -201,6 +201,12 @@ func (f *FieldCopyFromGenerator) genPrimitive() *j.Statement {
 		if f.OneOfName != "" {
 			// Do not set empty oneOf value to not override values possibly set by other branches
 			g.If(j.Id("!v.Null && !v.Unknown")).BlockFunc(func(g *j.Group) {
+				if f.ParentIsOptionalEmbed {
+					// The oneOf holder belongs to the embedded parent
+					g.If(j.Id("obj." + f.ParentIsOptionalEmbedFieldName).Op("==").Nil()).Block(
+						j.Id("obj." + f.ParentIsOptionalEmbedFieldName).Op("=").Id("&" + f.ParentIsOptionalEmbedFullType + "{}"),
+					)
+				}
 				g.Id("obj." + f.OneOfName).Op("=").Id("&" + f.i.WithType(f.OneOfType)).Values(j.Dict{
 					j.Id(f.Name): j.Id("t"),
 				})
